@@ -1598,3 +1598,79 @@ impl Family for F13 {
         Case { u, p: prob, tag: "F13".into() }
     }
 }
+
+/// F14 "late candidate of a package with three or more candidates": root requires a (and may
+/// constrain t); a=2 requires x and w, a=1 (present or not) has no dependencies; x=2 and x=1 each
+/// require t within a subset of its versions (x=1 possibly nothing); w=1 requires y, y=1 requires t
+/// within a subset. t has `nt` versions (3 or 4), so its at-most-one encoding has helper variables,
+/// and candidates of t are revealed by y only after x's choice of t was decided: conflict clauses
+/// then contain helper literals of a lower level. Every non-empty subset of t's versions is a
+/// version set.
+pub struct F14 {
+    pub nt: u32,
+}
+
+impl Family for F14 {
+    fn name(&self) -> String {
+        format!("F14 late candidate of a package with {} candidates (a -> x, w; x -> t; w -> y -> t; root constrains t)", self.nt)
+    }
+    fn len(&self) -> u64 {
+        let s = (1u64 << self.nt) - 1; // non-empty subsets
+        s * (s + 1) * s * (s + 1) * 2
+    }
+    fn get(&self, mut idx: u64) -> Case {
+        let s = (1u64 << self.nt) - 1;
+        let mut take = |n: u64| {
+            let r = idx % n;
+            idx /= n;
+            r
+        };
+        let sx2 = take(s) + 1;
+        let sx1 = take(s + 1);
+        let sy = take(s) + 1;
+        let sroot = take(s + 1);
+        let with_a1 = take(2) == 1;
+        let mut u = Universe::default();
+        let a = u.add_name("a");
+        let x = u.add_name("x");
+        let w = u.add_name("w");
+        let y = u.add_name("y");
+        let t = u.add_name("t");
+        let a1 = if with_a1 { Some(u.add_solv(a, 1)) } else { None };
+        let a2 = u.add_solv(a, 2);
+        let x1 = u.add_solv(x, 1);
+        let x2 = u.add_solv(x, 2);
+        let w1 = u.add_solv(w, 1);
+        let y1 = u.add_solv(y, 1);
+        let ts: Vec<Id> = (1..=self.nt).map(|v| u.add_solv(t, v)).collect();
+        for n in [a, x, t] {
+            u.rerank_by_version(n);
+        }
+        let a_all = u.add_vset(a, &a1.into_iter().chain([a2]).collect::<Vec<_>>());
+        let x_all = u.add_vset(x, &[x1, x2]);
+        let w_all = u.add_vset(w, &[w1]);
+        let y_all = u.add_vset(y, &[y1]);
+        let mut subset = |u: &mut Universe, mask: u64| -> Id {
+            let members: Vec<Id> = ts.iter().enumerate().filter(|(i, _)| mask & (1 << i) != 0).map(|(_, &s)| s).collect();
+            u.vset(t, &members)
+        };
+        let v = subset(&mut u, sx2);
+        u.solvs[x2 as usize].deps.push_req(Req::Single(v));
+        if sx1 > 0 {
+            let v = subset(&mut u, sx1);
+            u.solvs[x1 as usize].deps.push_req(Req::Single(v));
+        }
+        let v = subset(&mut u, sy);
+        u.solvs[y1 as usize].deps.push_req(Req::Single(v));
+        u.solvs[a2 as usize].deps.push_req(Req::Single(x_all));
+        u.solvs[a2 as usize].deps.push_req(Req::Single(w_all));
+        u.solvs[w1 as usize].deps.push_req(Req::Single(y_all));
+        let mut prob = Problem::default();
+        prob.reqs.push(Req::Single(a_all));
+        if sroot > 0 {
+            let v = subset(&mut u, sroot);
+            prob.cons.push(v);
+        }
+        Case { u, p: prob, tag: "F14".into() }
+    }
+}
